@@ -115,8 +115,21 @@ class _Interp(object):
                         cc = True
                     elif isinstance(node_, ast.IfExp) and fld in ("body", "orelse"):
                         cc = True
-                    elif isinstance(node_, (ast.ListComp, ast.SetComp, ast.DictComp, ast.GeneratorExp, ast.Lambda)):
+                    elif isinstance(node_, ast.Lambda):
                         cc = True
+                    elif isinstance(node_, (ast.ListComp, ast.SetComp, ast.DictComp, ast.GeneratorExp)):
+                        # the first iterable is evaluated once, unconditionally, in the enclosing scope (for a generator
+                        # expression: when it is created); everything else runs per element, if at all
+                        first_iter = node_.generators[0].iter if node_.generators else None
+                        if not (fld == "generators" and i == 0):
+                            cc = True
+                        elif first_iter is not None:
+                            # push the comprehension node's children selectively: iter keeps cond_, the rest is conditional
+                            for fld2, val2 in ast.iter_fields(c):
+                                for c2 in (val2 if isinstance(val2, list) else [val2]):
+                                    if isinstance(c2, ast.AST):
+                                        stack.append((c2, cond_ if fld2 == "iter" else True))
+                            continue
                     stack.append((c, cc))
         certain_removed = set()
         for n in ast.walk(stmt):
